@@ -730,6 +730,12 @@ static int serializeTlv(const KSI_TLV *tlv, unsigned char *buf, size_t buf_size,
 	}
 
 	if ((opt & KSI_TLV_OPT_NO_HEADER) == 0) {
+		/* The payload has to fit the 16 bit length field. */
+		if (len > 0xffff) {
+			KSI_pushError(tlv->ctx, res = KSI_INVALID_FORMAT, "TLV payload too long.");
+			goto cleanup;
+		}
+
 		/* Write header. */
 		if (len > 0xff || tlv->tag > KSI_TLV_MASK_TLV8_TYPE) {
 			hdr_len = 4;
